@@ -28,7 +28,7 @@ RULE = (
     "file type from the tables or unrecognised, --style (27 names) or detected, --single-line / --multi-line, ten --copyright-prefix values, 0..3 "
     "--year / --exclude-year / today's year, --force-dot-license / --fallback-dot-license / --skip-unrecognised, --no-replace, a holder / LicenseRef- whose tail mirrors the comment marker of its line, templates {default, prose, "
     "without contributor loop, pre-commented in the file's style, dropping licences / copyright / both}, binary files (not UTF-8 | control characters that are valid UTF-8), 0..3 holders, 0..2 expressions, "
-    "0..2 contributors, pre-existing header in own style / foreign style / .license.  Oracle: success => read-back == before U requested (copyright, "
+    "0..2 contributors, pre-existing header in own style / foreign style / .license, or a leading comment block that is one ignore block.  Oracle: success => read-back == before U requested (copyright, "
     "licences; contributors when the template renders them); dropping template => never success.  Non-trivial = success case not (python style, default "
     "options); distinct by case."
 )
@@ -77,6 +77,8 @@ def case(draw):
             "companion": draw(st.integers(0, 4)) == 0, "recursive": name.startswith("src/") and draw(st.integers(0, 2)) == 0,
             "second": draw(st.sampled_from([None, None, "header", "plain"])) if plain else None,
             # a requested holder / LicenseRef- whose tail mirrors the comment marker of the line it will be written on; binary content that is valid UTF-8
+            # the file starts with a comment block in its own style that holds nothing but an ignore block
+            "ignored_top": draw(st.integers(0, 7)) == 0,
             "mirror": draw(st.integers(0, 5)) == 0, "bincontent": draw(st.sampled_from(["nonutf8", "controls"]))}
 
 
@@ -119,6 +121,12 @@ def check(ctx, c, table_walk=False):
                     if body.startswith("#!"):
                         body = "print('x')\n"
                     content = P.header_text(hstyle, existing["cop"], existing["lic"], existing["con"], body=body or "x\n")
+        if c.get("ignored_top") and not c["binary"] and not to_dotlicense and not existing and used_style:
+            lines = ["REUSE-IgnoreStart", "SPDX-FileCopyrightText: 1999 Ignored Holder", "SPDX-License-Identifier: LicenseRef-ignored", "REUSE-IgnoreEnd"]
+            blk = S.wrap_single(used_style, lines) if S.has_single(used_style) and (c["line"] != "multi" or not S.has_multi(used_style)) else S.wrap_block(used_style, lines)
+            b = c["body"] if not c["body"].startswith("#!") else "print('x')\n"
+            content = "\n".join(blk) + "\n" + (b or "code();\n")
+            ctx.label("existing:ignore-block-on-top")
         files = {name: content}
         if existing and to_dotlicense:
             files[name + ".license"] = P.header_text("none", existing["cop"], existing["lic"], existing["con"], body="")
